@@ -570,6 +570,23 @@ pub fn sync_after(w: &mut World, loaded_proj: &Project, inv: &RInv, out: &ROut) 
     scan(w);
     // records for successful completions, in completion order
     let oks: Vec<(usize, &AgentEv)> = out.events.iter().enumerate().filter(|(_, e)| e.kind == 'E' && e.info == "ok").collect();
+    // When the build failed, n2 stops collecting completions at some point after the first
+    // failure: commands that finish from then on are orphans whose record may or may not exist.
+    let first_fail_ns: Option<u64> = if out.exit != Some(0) {
+        out.events.iter().filter(|e| e.kind == 'E' && e.info != "ok").map(|e| e.ns).min().or_else(|| out.events.iter().map(|e| e.ns).max())
+    } else {
+        None
+    };
+    for (_, e) in &oks {
+        match first_fail_ns {
+            Some(t) if e.ns + 50_000_000 >= t => {
+                w.uncertain.insert(e.step.clone());
+            }
+            _ => {
+                w.uncertain.remove(&e.step);
+            }
+        }
+    }
     for (ei, e) in &oks {
         // the generation a completion belongs to is the one whose command text (version) it was started with
         let matches = |p: &Project| p.step_index(&e.step).map(|i| format!("v{}", p.steps[i].ver) == e.ver).unwrap_or(false);
